@@ -162,9 +162,12 @@ def gen_case(rng, docopts, hostile_ids=None):
                     files[j] = (files[j][0], CMD_OK_BASH.encode() if files[j][1] != CMD_OK_BASH.encode() else CMD_OK.encode())
             if o['type'] == 'skill' and rng.random() < 0.3:
                 files.append(('only-in-twin.txt', b'x\n'))
+            fm = o['fm_ok']
+            if o['type'] == 'skill' and any(r == 'SKILL.md' and b in (SKILL_OK.encode(), SKILL_OK2.encode()) for r, b in files): fm = True
+            if o['type'] == 'command' and len(files) == 1 and files[0][1] in (CMD_OK.encode(), CMD_OK_BASH.encode()): fm = True
             modules.insert(rng.randrange(len(modules) + 1),
                            {'id': tid, 'type': o['type'], 'enabled': True, 'tags': list(o['tags']), 'targets': list(o['targets']),
-                            'files': files, 'fm_ok': o['fm_ok']})
+                            'files': files, 'fm_ok': fm})
     if rng.random() < 0.03:
         modules[-1]['targets'] = ['nonesuch']
     ids = [m['id'] for m in modules]
@@ -193,12 +196,12 @@ def manifest_of(case, order, sbroot):
     mods = []
     for i in order:
         m = case['modules'][i]
-        d = {'id': m['id'], 'type': m['type'], 'tags': m['tags'], 'source': {'local_path': {'path': 'modules/m%d' % i}}}
+        d = {'id': subst(m['id'], sbroot), 'type': m['type'], 'tags': m['tags'], 'source': {'local_path': {'path': 'modules/m%d' % i}}}
         if m['targets']: d['targets'] = m['targets']
         if not m['enabled']: d['enabled'] = False
         mods.append(d)
     return {'version': case['version'],
-            'profiles': case['profiles'],
+            'profiles': {n: {k: [subst(x, sbroot) for x in v] for k, v in p.items()} for n, p in case['profiles'].items()},
             'targets': {t: {'mode': 'files', 'scope': c['scope'], 'options': {k: subst(v, sbroot) for k, v in c['options'].items()}}
                         for t, c in case['targets'].items()},
             'modules': mods}
@@ -214,7 +217,7 @@ def write_world(sb, case, order, file_perm_seed):
         files = list(m['files'])
         r.shuffle(files)
         for rel, data in files:
-            world.write(os.path.join(d, rel), data)
+            world.write(os.path.join(d, subst(rel, sb.root)), data)
     world.write_config(sb.repo, manifest_of(case, order, sb.root))
 
 def cli_args(case):
@@ -449,8 +452,13 @@ def ref_render(case, docopts):
 
 # ---------------------------------------------------------------- Coq terms
 
+_ROOT = ['/S']       # sandbox root used when building Coq terms (set per case by coq_case / set_root)
+
+def set_root(root):
+    _ROOT[0] = root
+
 def cs(x):
-    return cq.cstr(x.replace(SB, '/S'))
+    return cq.cstr(x.replace(SB, _ROOT[0]))
 
 def coq_oval(v):
     if isinstance(v, bool): return '(OBool %s)' % cq.cbool(v)
@@ -475,11 +483,11 @@ def coq_cfg(case):
             files.append('(F %s %s %s)' % (cq.clist([cs(c) for c in rel.split('/')]), cq.cbytes(data), cq.cbool(u)))
         mods.append('(M %s %s %s %s %s %s %s %s)' % (cs(m['id']), ty[m['type']], cq.cbool(m['enabled']),
                     cq.clist([cs(x) for x in m['tags']]), cq.clist([cs(x) for x in m['targets']]), cq.clist(files),
-                    cq.cbool(m['fm_ok']), cs(hashlib.sha256(m['id'].encode('utf-8')).hexdigest()[:10])))
+                    cq.cbool(m['fm_ok']), cs(hashlib.sha256(m['id'].replace(SB, _ROOT[0]).encode('utf-8')).hexdigest()[:10])))
     return '(mkCfg %d %s %s %s)' % (case['version'], profs, tgts, cq.clist(mods))
 
 def coq_env(case):
-    return '(mkEnv (s "/S/home") (s "/S/project") %s)' % cq.copt(case['codex_env'], cs)
+    return '(mkEnv %s %s %s)' % (cs(SB + '/home'), cs(SB + '/project'), cq.copt(case['codex_env'], cs))
 
 def coq_obs(res):
     p0 = res['plans'][0]
@@ -493,12 +501,15 @@ def coq_obs(res):
     return '(ObsOk %s %s)' % (cq.clist(files), cq.clist(roots))
 
 def coq_case(case, res):
+    set_root(res['sbroot'])
     return cq.cpair(coq_cfg(case), coq_env(case), cs(case['profile']), cs(case['filter']), coq_obs(res))
 
 def coq_manifests(res):
     out = []
     for (tool, root), ents in sorted((res.get('manifests') or {}).items()):
-        out.append(cq.cpair(cs(tool or ''), cs(root), cq.clist([cs(p) for p in sorted((e[0] for e in ents), key=lambda x: x.encode())])))
+        # Path::strip_prefix keeps the raw remainder ("a//b", "a/./b"): compare component-wise (the raw entries are judged by the oracle)
+        canon = ['/'.join(c for c in e[0].split('/') if c not in ('', '.')) for e in ents]
+        out.append(cq.cpair(cs(tool or ''), cs(root), cq.clist([cs(p) for p in sorted(canon, key=lambda x: x.encode())])))
     return cq.clist(out)
 
 def case_json(case):
